@@ -127,7 +127,83 @@ func (d *distinctEngine) valueDistinct(f *ssa.Function, v ssa.Value, depth int) 
 	if isEmptySliceBase(v) {
 		return true
 	}
-	return mapKeySlice(f, v)
+	return mapKeySlice(f, v) || seenFilterSlice(f, v)
+}
+
+// seenFilterSlice: every append into v is confined to the miss branch of a
+// lookup of the appended element in a local map, and that element is inserted
+// into the map on the same branch (first-occurrence filter).
+func seenFilterSlice(f *ssa.Function, v ssa.Value) bool {
+	ai := appendChain(v)
+	if len(ai.Appends) == 0 {
+		return false
+	}
+	for _, b := range ai.Bases {
+		if isEmptySliceBase(b) {
+			continue
+		}
+		if sl, ok := b.(*ssa.Slice); ok {
+			if h, ok := constInt(sl.High); sl.High != nil && ok && h == 0 {
+				continue // x[:0]
+			}
+		}
+		return false
+	}
+	for _, ap := range ai.Appends {
+		elems, spread := appendedElems(ap)
+		if spread != nil || len(elems) != 1 {
+			return false
+		}
+		el := elems[0]
+		found := false
+		for _, blk := range f.Blocks {
+			t, fl, ifi := ifSuccs(blk)
+			if ifi == nil {
+				continue
+			}
+			var lk *ssa.Lookup
+			miss := fl
+			switch x := resolve(ifi.Cond).(type) {
+			case *ssa.Extract:
+				lk, _ = x.Tuple.(*ssa.Lookup)
+			case *ssa.Lookup:
+				lk = x
+			case *ssa.UnOp:
+				if x.Op == token.NOT {
+					miss = t
+					switch y := resolve(x.X).(type) {
+					case *ssa.Extract:
+						lk, _ = y.Tuple.(*ssa.Lookup)
+					case *ssa.Lookup:
+						lk = y
+					}
+				}
+			}
+			if lk == nil || !equivValue(lk.Index, el) {
+				continue
+			}
+			mm, ok := resolve(lk.X).(*ssa.MakeMap)
+			if !ok {
+				continue
+			}
+			if !(miss == ap.Block() || blockDominatedByEdge(f, blk, miss, ap.Block())) {
+				continue
+			}
+			ins := false
+			instrs(f, func(in ssa.Instruction) {
+				if mu, ok := in.(*ssa.MapUpdate); ok && resolve(mu.Map) == ssa.Value(mm) && equivValue(mu.Key, el) && (mu.Block() == miss || blockDominatedByEdge(f, blk, miss, mu.Block())) {
+					ins = true
+				}
+			})
+			if ins {
+				found = true
+			}
+		}
+		if !found {
+			return false
+		}
+	}
+	return true
 }
 
 func (d *distinctEngine) callDistinct(f *ssa.Function, c *ssa.Call, depth int) bool {
